@@ -141,6 +141,11 @@ def tree_events(name, trees, rng, evs):
                 "expected_input": in_d[B - 1]})
 
 
+def _limbs64(v):
+    b = int(np.frombuffer(np.float64(np.float64(v) + 0.0).tobytes(), dtype=np.uint64)[0])      # (+ 0.0: -0.0 becomes +0.0)
+    return [b >> 44, (b >> 22) & 0x3FFFFF, b & 0x3FFFFF]
+
+
 def leaves_desc(tree):
     """For the equality helper: nested python containers, described leaf by leaf with full data."""
     import tree as tree_lib
@@ -148,7 +153,7 @@ def leaves_desc(tree):
     out = []
     for lf in tree_lib.flatten(tree):
         if lf is None:        # a None leaf (dm-tree keeps it as a leaf): equal to None only
-            out.append({"shape": [], "dtype": "none", "cls": "n", "data": [0], "exact4": False, "num4": [0]})
+            out.append({"shape": [], "dtype": "none", "cls": "n", "data": [0], "exact4": False, "num4": [0], "w64": []})
             continue
         a = np.asarray(lf)
         isf = np.issubdtype(a.dtype, np.floating)
@@ -156,6 +161,9 @@ def leaves_desc(tree):
         out.append({"shape": [int(x) for x in a.shape], "dtype": str(a.dtype), "cls": "f" if isf else "i",
                     "data": [jsonify.ford(v) if isf else int(v) for v in a.reshape(-1)],
                     # numeric value in quarters (exact for the values generated here), for cross-dtype comparison
+                    # floats of any width, widened exactly to float64: the bit pattern in three limbs (-0.0 as +0.0) -
+                    # two float leaves hold equal elements iff these coincide, whatever their dtypes
+                    "w64": [_limbs64(v) for v in a.reshape(-1)] if isf else [],
                     "exact4": bool(np.all(q == np.rint(q)) and np.all(np.abs(q) < 2 ** 30)),
                     "num4": [int(v) for v in np.rint(np.clip(q, -2 ** 30, 2 ** 30))]})
     return out
@@ -214,6 +222,15 @@ def eq_events(rng, evs, n):
                  ("mixed_dtype_wraparound_by_cast", jnp_.asarray([1, 2], "uint8"), jnp_.asarray([257, 258], "int32")),
                  ("mixed_dtype_bool_vs_int", jnp_.asarray([True, False]), jnp_.asarray([2, 0], "int32")),
                  ("mixed_scalar_int_vs_float", jnp_.asarray(3, "int32"), 3.75)]
+        # floats of different widths: equal iff the widened values coincide - a value that only exists in the wider type
+        # (0.1 as float64, 1 + 2^-30) is different from its rounding to the narrower one
+        f32 = np.asarray([0.5, -1.25, 3.0], np.float32)
+        mixed += [("mixed_float_width_equal_values", jnp_.asarray(f32), f32.astype(np.float64)),
+                  ("mixed_float_width_equal_values_f16", f32.astype(np.float16), jnp_.asarray(f32)),
+                  ("mixed_float_width_sub_resolution", jnp_.asarray(np.asarray([0.1, 0.5], np.float32)), np.asarray([0.1, 0.5], np.float64)),
+                  ("mixed_float_width_sub_resolution_f16", np.asarray([1.0, 2.0], np.float16), np.asarray([1.0 + 2.0 ** -12, 2.0], np.float32)),
+                  ("mixed_float_python_literal", jnp_.asarray(0.1, "float32"), 0.1),
+                  ("mixed_float_width_one_plus_tiny", np.float32(1.0), np.float64(1.0 + 1e-9))]
         mname, ma, mb = mixed[c % len(mixed)]
         if kind == 0:
             pairs.append((mname, {"x": ma, "y": (leaves[1], leaves[2])}, {"x": mb, "y": (leaves[1], leaves[2])}))
